@@ -105,6 +105,29 @@ def _replace(src, dst):
         return os.rename(src, dst)
 
 
+class _OsProxy(object):
+    """the `os` module as the storage modules see it: calls that change the directory are primitive writes too"""
+
+    def __init__(self, real):
+        self._os = real
+
+    def __getattr__(self, name):
+        return getattr(self._os, name)
+
+    def _guard(name):
+        def f(self, *a, **kw):
+            if _write_allowed():
+                return getattr(self._os, name)(*a, **kw)
+        f.__name__ = name
+        return f
+    remove = _guard('remove')
+    unlink = _guard('unlink')
+    rename = _guard('rename')
+    replace = _guard('replace')
+    truncate = _guard('truncate')
+    ftruncate = _guard('ftruncate')
+
+
 _installed = False
 
 
@@ -126,6 +149,8 @@ def install():
     J.shutil = _Shutil
     S.open = _open
     S.atomicReplace = _replace
+    J.os = _OsProxy(os)
+    S.os = _OsProxy(os)
 
 
 # ---------------------------------------------------------------------------------------------------
